@@ -1273,9 +1273,32 @@ class Run:
     def ev_Subscript(self, n):
         base = self.ev(n.value)
         if isinstance(n.slice, ast.Slice):
-            raise Reject("slice")
+            return self.prefix_slice(base, n.slice)
         idx = self.ev(n.slice)
         return self.getitem(base, idx)
+
+    def prefix_slice(self, base, sl):
+        """xs[:k] of a list: a fresh list holding the first min(max(k', 0), len) elements (k' = k + len for negative k)"""
+        if sl.lower is not None or sl.step is not None or sl.upper is None:
+            raise Reject("slice other than xs[:k]")
+        if not (isinstance(base, SV) and isinstance(base.ty, T.List)):
+            raise Reject("slice of %r" % (base,))
+        t = base.ty
+        self.touch(base)
+        n = self.heap.c_len(t, base.z)
+        u = self.coerce(self.ev(sl.upper), T.INT).z
+        u = z3.If(u < 0, u + n, u)
+        m = z3.If(u < 0, 0, z3.If(u > n, n, u))
+        src = self.heap.l_elems(t, base.z)
+        out = self.new_container(t)
+        name, a = self.heap.carr(t, "len")
+        self.heap.set(name, z3.Store(a, out.z, m))
+        self.heap._upd(t, "elem", out.z, src)
+        es = T.sort(t.elem)
+        e = z3.Const(H.fresh_name("sl_e"), es)
+        M = H.mem_fn(es)
+        self.assume(z3.ForAll([e], z3.Implies(M(src, m, e), M(src, n, e)), patterns=[M(src, m, e)]))
+        return out
 
     def getitem(self, base, idx):
         if isinstance(base, PyTuple):
@@ -1872,6 +1895,8 @@ class Run:
                 return NONE_SV
             if name == "remove":
                 return self.list_remove(c, args[0])
+            if name == "pop":
+                return self.list_pop(c, args[0] if args else None)
             if name == "extend":
                 return self.list_extend(c, args[0])
             raise Reject("list.%s" % name)
@@ -1903,6 +1928,35 @@ class Run:
         self.note_written([name])
         return NONE_SV
 
+    def list_pop(self, c, idx):
+        """list.pop([i]): IndexError when empty / out of range; removes and returns the element at i (default: last),
+        later elements shift down by one."""
+        t = c.ty
+        hp = self.heap
+        self.touch(c)
+        es = T.sort(t.elem)
+        elems, n = hp.l_elems(t, c.z), hp.c_len(t, c.z)
+        i = z3.IntVal(-1) if idx is None else self.coerce(idx, T.INT).z
+        p = z3.If(i < 0, i + n, i)
+        if self.choose(z3.Or(p < 0, p >= n)):
+            raise Raise_("IndexError")
+        xz = z3.Select(elems, p)
+        res = SV(t.elem, z3.Const(H.fresh_name("popped"), es))
+        self.assume(res.z == xz)
+        self.assume_typed(res)
+        j = z3.Int(H.fresh_name("pp_j"))
+        e = z3.Const(H.fresh_name("pp_e"), es)
+        new = H.fresh("pop_elems", z3.ArraySort(H.I, es))
+        M = H.mem_fn(es)
+        self.assume(z3.ForAll([j], z3.And(z3.Implies(z3.And(0 <= j, j < p), z3.Select(new, j) == z3.Select(elems, j)), z3.Implies(z3.And(p <= j, j < n - 1), z3.Select(new, j) == z3.Select(elems, j + 1))), patterns=[z3.Select(new, j)]))
+        self.assume(z3.ForAll([e], z3.Implies(M(new, n - 1, e), M(elems, n, e)), patterns=[M(new, n - 1, e)]))
+        self.assume(z3.ForAll([e], z3.Implies(z3.And(M(elems, n, e), e != res.z), M(new, n - 1, e)), patterns=[M(elems, n, e)]))
+        self.note_written([hp._upd(t, "elem", c.z, new)])
+        name, a = hp.carr(t, "len")
+        hp.set(name, z3.Store(a, c.z, n - 1))
+        self.note_written([name])
+        return res
+
     def list_remove(self, c, x):
         """list.remove(x): first element equal to x (identity / structural ==) is removed."""
         t = c.ty
@@ -1910,7 +1964,9 @@ class Run:
         if isinstance(t.elem, T.Val) and resolve_method(t.elem.name, "__eq__"):
             raise Reject("list.remove with custom __eq__")
         if isinstance(t.elem, T.Ref) and t.elem.cls and resolve_method(t.elem.cls, "__eq__"):
-            raise Reject("list.remove with custom __eq__")
+            ceq = CONTRACTS.get(t.elem.cls + ".__eq__")
+            if not (ceq is not None and ceq.trusted and ceq.eq_identity):
+                raise Reject("list.remove with custom __eq__")
         xz = self.coerce(x, t.elem).z
         es = T.sort(t.elem)
         elems, n = hp.l_elems(t, c.z), hp.c_len(t, c.z)
